@@ -282,6 +282,9 @@ func judgeC11(rep *core.Report, c *CaseResult) {
 			}
 			var gotDoc []string
 			for _, dl := range od.DocLines {
+				if strings.TrimSpace(dl) == "//" {
+					continue // gofmt separates directive lines from prose with an empty comment line
+				}
 				gotDoc = append(gotDoc, strings.TrimSpace(dl))
 			}
 			if strings.Join(wantDoc, "\n") != strings.Join(gotDoc, "\n") {
